@@ -150,6 +150,7 @@ static std::vector<Rej> catalogue() {
     add("Group::addMultiTag(multi-tag of another block)", [](File &f) { Block o = B1(f); need(o.multiTagCount() > 0); G0(f).addMultiTag(o.getMultiTag(0)); });
     add("Group::addDataFrame(frame of another block)", [](File &f) { Block o = B1(f); need(o.dataFrameCount() > 0); G0(f).addDataFrame(o.getDataFrame(0)); });
     add("Group::tags(vector with a foreign tag)", [](File &f) { Block o = B1(f); need(o.tagCount() > 0); Group g = G0(f); std::vector<Tag> v = g.tags(); v.insert(v.begin(), T0(f)); v.push_back(o.getTag(0)); g.tags(v); });
+    add("Group::multiTags(vector with a foreign multi-tag)", [](File &f) { Block o = B1(f); need(o.multiTagCount() > 0); Group g = G0(f); std::vector<MultiTag> v = {M0(f), o.getMultiTag(0)}; g.multiTags(v); });
     add("Group::dataFrames(vector with a foreign frame)", [](File &f) { Block o = B1(f); need(o.dataFrameCount() > 0); Group g = G0(f); std::vector<DataFrame> v = {F0(f), o.getDataFrame(0)}; g.dataFrames(v); });
     add("MultiTag::createFeature(array of another block)", [](File &f) { M0(f).createFeature(foreignA(f), LinkType::Indexed); });
     add("MultiTag::references(vector with a foreign array)", [](File &f) { MultiTag m = M0(f); m.references({A0(f), foreignA(f)}); });
